@@ -59,6 +59,9 @@ func (vc *FuncVC) specSort(name string, pkg *types.Package) (Sort, types.Type) {
 	switch name {
 	case "int":
 		return SInt, nil
+	case "goint":
+		// Go's int (mode dependent: Int, or 64-bit vector in bv mode) — spec "int" is the mathematical integer
+		return vc.sortOf(types.Typ[types.Int]), types.Typ[types.Int]
 	case "bool":
 		return SBool, types.Typ[types.Bool]
 	case "string":
@@ -302,6 +305,10 @@ func (e *Env) trIdent(name string) TV {
 		return TV{T: h}
 	case "$alloc":
 		return TV{T: e.st.alloc}
+	}
+	if gs, ok := e.vc.w.specs.GhostVars[name]; ok {
+		s, gt := e.vc.specSort(gs, e.pkg)
+		return TV{T: e.st.heap(e.vc, "global.$ghost."+name, s), Go: gt}
 	}
 	// package-level constant or variable
 	pkgs := []*types.Package{e.pkg}
@@ -706,6 +713,8 @@ func (e *Env) valueTV(v Value, t types.Type) TV {
 		return TV{T: v, Go: t}
 	case *StructVal:
 		return TV{SV: v, Go: t}
+	case *ClosureVal:
+		return TV{T: e.vc.closureRef(e.st, v), Go: t}
 	case PtrVal:
 		if _, isStruct := v.T.Underlying().(*types.Struct); isStruct && v.Path != "" {
 			p := v
@@ -838,6 +847,21 @@ func (e *Env) trCall(x *ECall) TV {
 		}
 		hn, hs := e.vc.resolveHeap(s.Val, e.pkg)
 		return TV{T: e.st.heap(e.vc, hn, hs)}
+	case "fnref":
+		// fnref("pkg/path.Func$1"): the reference value of a function or of a closure without captured variables
+		sl, ok := x.Args[0].(*EStr)
+		if !ok {
+			trFail("fnref(\"name\")")
+		}
+		name := sl.Val
+		if _, ok := e.vc.w.funcs[name]; !ok {
+			if e.pkg != nil {
+				if _, ok2 := e.vc.w.funcs[e.pkg.Path()+"."+name]; ok2 {
+					name = e.pkg.Path() + "." + name
+				}
+			}
+		}
+		return TV{T: e.vc.sc.Const("fn."+name, SRef)}
 	case "bv":
 		v := e.tr(x.Args[0])
 		if v.Num == nil {
